@@ -69,3 +69,19 @@ Proof.
   vm_compute; reflexivity.
 Qed.
 Print Assumptions c13_mapping_used.
+
+(* The oracles used above decide the specification in both directions (so a rejected row is a genuine
+   counterexample, not an artefact of the oracle), for every table - in particular the regenerated one. *)
+Theorem c13_oracles_decide_spec :
+  (forall g, offset_okb tables g = true <-> field_offset_agrees tables g) /\
+  (forall g, size_okb tables g = true <-> field_size_agrees tables g) /\
+  (forall t, total_okb tables t = true <-> total_agrees tables t).
+Proof. exact (oracles_decide_spec tables). Qed.
+Print Assumptions c13_oracles_decide_spec.
+
+(* The witness lists the check prints (positions of rejected rows) are empty exactly when the enumerations succeed. *)
+Theorem c13_no_row_rejected :
+  bad (offset_okb tables) (T_g tables) = [] /\ bad (size_okb tables) (T_g tables) = [] /\
+  bad (total_okb tables) (T_gtot tables) = [] /\ bad (mapping_usedb tables) (T_m tables) = [].
+Proof. repeat split; apply bad_nil_iff; vm_compute; reflexivity. Qed.
+Print Assumptions c13_no_row_rejected.
